@@ -8,6 +8,7 @@ RULE = ("constructor trees over a boolean leaf alphabet (All, Any, AtLeast with 
         "depth 0-3, explicit and generated ids, str and puan.variable leaves), built through the Python constructors; ALL 0/1 assignments of "
         "the leaves are enumerated for every formula; thorough additionally enumerates every formula of a small grammar exhaustively; non-trivial "
         "= nesting depth >= 2 with a negating connective (Not/Imply/XNor) over a child list that mixes atoms and sub-propositions; distinct by canonical text. "
+        "Every formula is additionally built through the JSON constructor (from_json of a hand-written document) and checked against the same truth function. "
         "Correspondence: the constructor model Cons.build (Coq) must produce exactly the structure the Python constructors produce (ids through the id oracle)")
 
 NEGATING = ("Not", "Imply", "XNor")
@@ -142,6 +143,54 @@ def run_cic(res, tier, rng):
         res.violation("corr", f"rule-dictionary model differs from implementation for {json.dumps(d)}: implementation built {canon(pg.Imply.from_cicJE(d))}",
                       {"check": "CorrCons.check_cic", "rule": d, "failing_input_found": False})
 
+def doc_of_ast(ast):
+    """the JSON document a user would write for a constructor tree (independent of to_json)"""
+    k = ast["k"]
+    if k == "str":
+        return {"id": ast["id"]}
+    if k == "var":
+        d = {"id": ast["id"]}
+        if list(ast["b"]) != [0, 1]:
+            d["bounds"] = {"lower": ast["b"][0], "upper": ast["b"][1]}
+        return d
+    ch = [doc_of_ast(c) for c in ast.get("ch", [])]
+    if k == "Imply":
+        d = {"type": "Imply", "condition": ch[0], "consequence": ch[1]}
+    elif k == "Not":
+        return {"type": "Not", "proposition": ch[0]}
+    elif k == "AtLeast":
+        d = {"type": "AtLeast", "propositions": ch, "value": ast["v"]}
+        if ast.get("s") is not None:
+            d["sign"] = ast["s"]
+    elif k == "AtMost":
+        d = {"type": "AtMost", "propositions": ch, "value": ast["v"]}
+    else:
+        d = {"type": k, "propositions": ch}
+    if ast.get("id") is not None:
+        d["id"] = ast["id"]
+    return d
+
+def oracle_json(res, ast):
+    """the JSON constructor route: from_json(document) must have the documented truth function too"""
+    if any(x.get("vb") for x in [ast]):
+        return None
+    try:
+        m = pg.from_json(json.loads(json.dumps(doc_of_ast(ast))))
+    except Exception as e:
+        return {"op": "json-constructor", "model": ast_json(ast), "problem": f"from_json raised {type(e).__name__}: {e}"}
+    if isinstance(m, str) or is_var(m) or m.errors():
+        return None
+    lv = leaves_of(m)
+    ids = [l.id for l in lv]
+    for vals in itertools.product([0, 1], repeat=len(ids)):
+        env = dict(zip(ids, vals))
+        res.evaluations += 1
+        want = ast_sem(ast, env); got = m.evaluate(dict(env)).as_tuple()
+        if got != (want, want):
+            return {"op": "json-constructor", "model": ast_json(ast), "env": env, "required": want, "observed": list(got),
+                    "problem": f"from_json({json.dumps(doc_of_ast(ast))[:300]}) evaluates to {got} at {env}, documented truth function gives {want}"}
+    return None
+
 def mixed_formula(rng):
     """a negating connective over a node that mixes >= 2 atoms with >= 1 sub-proposition (all thresholds)"""
     items = list("abcdefg")
@@ -208,6 +257,11 @@ def run(res, tier, seed):
         bad = oracle_formula(res, ast, m)
         if bad:
             res.violation("oracle", f"{m!r} built from {json.dumps(ast_json(ast))[:300]}: {bad['problem']}", bad)
+        if not any("vb" in a for a in [ast]) and "Cc" not in json.dumps(ast_json(ast)):
+            badj = oracle_json(res, ast)
+            res.count("json_constructor_route")
+            if badj:
+                res.violation("oracle", badj["problem"], badj)
         cases.append((lambda it, ast=ast, m=m, orc=orc: f"({orc.term(it)}, {form_term(ast, it)}, {dump(m, it)})", (ast,)))
         res.sample({"formula": json.dumps(ast_json(ast))[:400], "model": repr(m)})
     n, failing, errs = run_case_shards("C04", "build", "", "idtable * form * prop", "check_build", cases, imports="Puan.Plog Puan.Sem Puan.Corr Puan.Cons Puan.CorrCons")
@@ -226,6 +280,11 @@ def run(res, tier, seed):
 
 def replay(payload):
     r = payload.get("replay", payload)
+    if r.get("op") == "json-constructor":
+        class R: evaluations = 0
+        badj = oracle_json(R, r["model"])
+        print("document", json.dumps(doc_of_ast(r["model"]))[:400], "->", "FAILS: " + badj["problem"] if badj else "holds")
+        return 1 if badj else 0
     if r.get("op") == "cic":
         m = pg.Imply.from_cicJE(r["rule"]); full = {x: r["env"].get(x, 0) for x in "abcdefg"}
         got = m.evaluate(dict(r["env"])).as_tuple(); want = cic_sem(r["rule"], full)
